@@ -1,15 +1,126 @@
 //! C07: output and chaining state are independent of how the blocks are batched into calls and of
 //! the cipher backend's parallel width.
 //!
-//! Reference run (a): one `*_block` call per block on a width-1 cipher.
-//! Subject run (b): the same blocks cut at two SYMBOLIC points k1 <= k2 into three pieces, fed as
-//!   piece 1 `*_blocks_b2b` (into a dirty buffer), piece 2 `*_blocks_inout`, piece 3 `*_blocks`
-//!   in place (or `*_block_b2b` when it is a single block), on a width-w cipher with the same key
-//!   (= the same permutation in the oracle).
+//! Inductive step (decides every composition): from an ARBITRARY chaining state (symbolic IV /
+//! counter position) one multi-block call of k blocks, k symbolic in [0, K], on a width-w cipher
+//! produces exactly what k single-block calls on a width-1 cipher produce and leaves exactly the
+//! state those leave.  Any composition (k_1..k_m) then reduces to single-block calls piece by
+//! piece.  (That the state exported here is the complete state is C09; that in-place, b2b and
+//! inout forms agree is C12.)
+//! Bounded confirmation (thorough): three pieces at symbolic cut points through three call kinds.
 use crate::prelude::*;
 use cipher::inout::InOutBuf;
 
 macro_rules! batch_case {
+    ($name:ident, $unw:expr, $ty:ident :: $t2:ident, $dir:ident, $bs:ty, $b:expr, $ivbs:ty, $ivlen:expr, $par:ty, $n:expr, $mbs:ty, $mb:expr) => {
+        #[kani::proof]
+        #[kani::unwind($unw)]
+        pub fn $name() {
+            const MB: usize = $mb;
+            const N: usize = $n;
+            const L: usize = MB * N;
+            let key: [u8; 2] = kani::any();
+            let iv: [u8; $ivlen] = kani::any();
+            let input: [u8; L] = kani::any();
+            // reference: one block per call, width 1; state recorded after every block
+            let c1 = Uf::<$bs, U1>::with_key(key);
+            let mut m1 = $ty::$t2::inner_iv_init(c1, blk::<$ivbs>(&iv));
+            let mut r = input;
+            let mut st_ref = [[0u8; $ivlen]; N + 1];
+            st_ref[0].copy_from_slice(&m1.iv_state());
+            {
+                let bl = blocks_mut::<$mbs>(&mut r);
+                let mut i = 0;
+                while i < N {
+                    do_block!($dir, m1, &mut bl[i]);
+                    st_ref[i + 1].copy_from_slice(&m1.iv_state());
+                    i += 1;
+                }
+            }
+            // subject: ONE call of k blocks (b2b into a dirty buffer), width w
+            let k: usize = kani::any();
+            kani::assume(k <= N);
+            let dirty: [u8; L] = kani::any();
+            let mut out = dirty;
+            let mut st2 = [0u8; $ivlen];
+            split_on!(k, 0, N, k_ => {
+                let cw = Uf::<$bs, $par>::with_key(key);
+                let mut m2 = $ty::$t2::inner_iv_init(cw, blk::<$ivbs>(&iv));
+                assert!(do_blocks_b2b!($dir, m2, &blocks::<$mbs>(&input)[..k_], &mut blocks_mut::<$mbs>(&mut out)[..k_]).is_ok());
+                st2.copy_from_slice(&m2.iv_state());
+            });
+            let mut i = 0;
+            while i < L {
+                if i < k * MB {
+                    assert!(out[i] == r[i], "a multi-block call differs from single-block calls");
+                } else {
+                    assert!(out[i] == dirty[i], "bytes beyond the processed blocks modified");
+                }
+                i += 1;
+            }
+            let mut j = 0;
+            while j < $ivlen {
+                assert!(st2[j] == st_ref[k][j], "chaining state after a multi-block call differs from single-block calls");
+                j += 1;
+            }
+            kani::cover!(k == N);
+            kani::cover!(k == 0);
+            kani::cover!(k == 1);
+        }
+    };
+}
+
+/// Keystream cores: one apply_keystream_blocks call of k blocks (width w) == k single-block calls
+/// (width 1) from an arbitrary position; position afterwards equal.
+macro_rules! ks_batch_case {
+    ($name:ident, $unw:expr, $mk:expr, $ct:ty, $bs:ty, $b:expr, $par:ty, $n:expr) => {
+        #[kani::proof]
+        #[kani::unwind($unw)]
+        pub fn $name() {
+            const B: usize = $b;
+            const N: usize = $n;
+            const L: usize = B * N;
+            let key: [u8; 2] = kani::any();
+            let iv: [u8; B] = kani::any();
+            let input: [u8; L] = kani::any();
+            let pos: $ct = kani::any();
+            kani::assume(pos <= <$ct>::MAX - N as $ct);
+            let c1 = UfE::<$bs, U1>::with_key(key);
+            let mut m1 = $mk(c1, blk::<$bs>(&iv));
+            m1.set_block_pos(pos as _);
+            let mut r = input;
+            for blk in blocks_mut::<$bs>(&mut r).iter_mut() {
+                m1.apply_keystream_blocks(core::slice::from_mut(blk));
+            }
+            let k: usize = kani::any();
+            kani::assume(k <= N);
+            let dirty: [u8; L] = kani::any();
+            let mut out = dirty;
+            let mut pos2 = pos;
+            split_on!(k, 0, N, k_ => {
+                let cw = UfE::<$bs, $par>::with_key(key);
+                let mut m2 = $mk(cw, blk::<$bs>(&iv));
+                m2.set_block_pos(pos as _);
+                m2.apply_keystream_blocks_inout(InOutBuf::new(&blocks::<$bs>(&input)[..k_], &mut blocks_mut::<$bs>(&mut out)[..k_]).unwrap());
+                pos2 = m2.get_block_pos() as $ct;
+            });
+            let mut i = 0;
+            while i < L {
+                if i < k * B {
+                    assert!(out[i] == r[i], "a multi-block keystream call differs from single-block calls");
+                } else {
+                    assert!(out[i] == dirty[i]);
+                }
+                i += 1;
+            }
+            assert!(pos2 == pos + k as $ct, "position after a multi-block call");
+            kani::cover!(k == N);
+            kani::cover!(k == 0);
+        }
+    };
+}
+
+macro_rules! batch3_case {
     ($name:ident, $unw:expr, $ty:ident :: $t2:ident, $dir:ident, $bs:ty, $b:expr, $ivbs:ty, $ivlen:expr, $par:ty, $n:expr, $mbs:ty, $mb:expr) => {
         // $mbs/$mb: the mode's own block size (== cipher's, except CFB-8 where it is U1/1)
         #[kani::proof]
@@ -29,36 +140,39 @@ macro_rules! batch_case {
                 do_block!($dir, m1, blk);
             }
             let st1 = m1.iv_state();
-            // (b) subject: three pieces at symbolic cut points, width w
+            // (b) subject: three pieces at symbolic cut points, width w (case split per cut pair)
             let k1: usize = kani::any();
             let k2: usize = kani::any();
             kani::assume(k1 <= k2 && k2 <= N);
-            let cw = Uf::<$bs, $par>::with_key(key);
-            let mut m2 = $ty::$t2::inner_iv_init(cw, blk::<$ivbs>(&iv));
             let dirty: [u8; L] = kani::any();
             let mut out = dirty;
-            {
-                let ib = blocks::<$mbs>(&input);
-                let ob = blocks_mut::<$mbs>(&mut out);
-                let (i1, irest) = ib.split_at(k1);
-                let (i2, i3) = irest.split_at(k2 - k1);
-                let (o1, orest) = ob.split_at_mut(k1);
-                let (o2, o3) = orest.split_at_mut(k2 - k1);
-                assert!(do_blocks_b2b!($dir, m2, i1, o1).is_ok());
-                do_blocks_inout!($dir, m2, InOutBuf::new(i2, o2).unwrap());
-                if i3.len() == 1 {
-                    do_block_b2b!($dir, m2, &i3[0], &mut o3[0]);
-                } else {
-                    o3.clone_from_slice(i3);
-                    do_blocks!($dir, m2, o3);
-                }
-            }
+            let mut st2 = [0u8; $ivlen];
+            split_on!(k1, 0, N, a_ => {
+                split_on!(k2, a_, N, b_ => {
+                    let cw = Uf::<$bs, $par>::with_key(key);
+                    let mut m2 = $ty::$t2::inner_iv_init(cw, blk::<$ivbs>(&iv));
+                    let ib = blocks::<$mbs>(&input);
+                    let ob = blocks_mut::<$mbs>(&mut out);
+                    let (i1, irest) = ib.split_at(a_);
+                    let (i2, i3) = irest.split_at(b_ - a_);
+                    let (o1, orest) = ob.split_at_mut(a_);
+                    let (o2, o3) = orest.split_at_mut(b_ - a_);
+                    assert!(do_blocks_b2b!($dir, m2, i1, o1).is_ok());
+                    do_blocks_inout!($dir, m2, InOutBuf::new(i2, o2).unwrap());
+                    if i3.len() == 1 {
+                        do_block_b2b!($dir, m2, &i3[0], &mut o3[0]);
+                    } else {
+                        o3.clone_from_slice(i3);
+                        do_blocks!($dir, m2, o3);
+                    }
+                    st2.copy_from_slice(&m2.iv_state());
+                });
+            });
             let mut i = 0;
             while i < L {
                 assert!(out[i] == r[i], "output depends on batching / parallel width");
                 i += 1;
             }
-            let st2 = m2.iv_state();
             let mut j = 0;
             while j < $ivlen {
                 assert!(st1[j] == st2[j], "chaining state depends on batching / parallel width");
@@ -73,7 +187,7 @@ macro_rules! batch_case {
 
 /// Keystream cores (CTR flavours, BelT-CTR, OFB): pieces through apply_keystream_blocks (in place),
 /// apply_keystream_blocks_inout and write_keystream_blocks; reference = one block per call, width 1.
-macro_rules! ks_batch_case {
+macro_rules! ks_batch3_case {
     ($name:ident, $unw:expr, $mk:expr, $ct:ty, $seek:expr, $bs:ty, $b:expr, $par:ty, $n:expr) => {
         #[kani::proof]
         #[kani::unwind($unw)]
@@ -96,39 +210,45 @@ macro_rules! ks_batch_case {
             let k1: usize = kani::any();
             let k2: usize = kani::any();
             kani::assume(k1 <= k2 && k2 <= N);
-            let cw = UfE::<$bs, $par>::with_key(key);
-            let mut m2 = $mk(cw, blk::<$bs>(&iv));
-            if $seek { m2.set_block_pos(pos as _); }
             let dirty: [u8; L] = kani::any();
             let mut out = dirty;
-            {
-                let ib = blocks::<$bs>(&input);
-                let ob = blocks_mut::<$bs>(&mut out);
-                let (i1, irest) = ib.split_at(k1);
-                let (i2, i3) = irest.split_at(k2 - k1);
-                let (o1, orest) = ob.split_at_mut(k1);
-                let (o2, o3) = orest.split_at_mut(k2 - k1);
-                o1.clone_from_slice(i1);
-                m2.apply_keystream_blocks(o1);
-                m2.apply_keystream_blocks_inout(InOutBuf::new(i2, o2).unwrap());
-                // piece 3: raw keystream, XORed by the harness
-                m2.write_keystream_blocks(o3);
-                let mut a = 0;
-                while a < o3.len() {
-                    let mut j = 0;
-                    while j < B {
-                        o3[a][j] ^= i3[a][j];
-                        j += 1;
+            let mut pos2 = m1.get_block_pos();
+            let mut pos2_set = false;
+            split_on!(k1, 0, N, a_ => {
+                split_on!(k2, a_, N, b_ => {
+                    let cw = UfE::<$bs, $par>::with_key(key);
+                    let mut m2 = $mk(cw, blk::<$bs>(&iv));
+                    if $seek { m2.set_block_pos(pos as _); }
+                    let ib = blocks::<$bs>(&input);
+                    let ob = blocks_mut::<$bs>(&mut out);
+                    let (i1, irest) = ib.split_at(a_);
+                    let (i2, i3) = irest.split_at(b_ - a_);
+                    let (o1, orest) = ob.split_at_mut(a_);
+                    let (o2, o3) = orest.split_at_mut(b_ - a_);
+                    o1.clone_from_slice(i1);
+                    m2.apply_keystream_blocks(o1);
+                    m2.apply_keystream_blocks_inout(InOutBuf::new(i2, o2).unwrap());
+                    // piece 3: raw keystream, XORed by the harness
+                    m2.write_keystream_blocks(o3);
+                    let mut a = 0;
+                    while a < o3.len() {
+                        let mut j = 0;
+                        while j < B {
+                            o3[a][j] ^= i3[a][j];
+                            j += 1;
+                        }
+                        a += 1;
                     }
-                    a += 1;
-                }
-            }
+                    pos2 = m2.get_block_pos();
+                    pos2_set = true;
+                });
+            });
             let mut i = 0;
             while i < L {
                 assert!(out[i] == r[i], "keystream depends on batching / parallel width");
                 i += 1;
             }
-            assert!(m1.get_block_pos() == m2.get_block_pos(), "position depends on batching");
+            assert!(pos2_set && m1.get_block_pos() == pos2, "position depends on batching");
             kani::cover!(k1 == 1 && k2 == N - 1);
             kani::cover!(k1 == 0 && k2 == N);
         }
@@ -136,7 +256,7 @@ macro_rules! ks_batch_case {
 }
 
 /// OFB has no seek; same shape without position.
-macro_rules! ofb_batch_case {
+macro_rules! ofb_batch3_case {
     ($name:ident, $unw:expr, $bs:ty, $b:expr, $par:ty, $n:expr) => {
         #[kani::proof]
         #[kani::unwind($unw)]
@@ -156,28 +276,32 @@ macro_rules! ofb_batch_case {
             let k1: usize = kani::any();
             let k2: usize = kani::any();
             kani::assume(k1 <= k2 && k2 <= N);
-            let cw = UfE::<$bs, $par>::with_key(key);
-            let mut m2 = ofb::OfbCore::inner_iv_init(cw, blk::<$bs>(&iv));
             let dirty: [u8; L] = kani::any();
             let mut out = dirty;
-            {
-                let ib = blocks::<$bs>(&input);
-                let ob = blocks_mut::<$bs>(&mut out);
-                let (i1, irest) = ib.split_at(k1);
-                let (i2, i3) = irest.split_at(k2 - k1);
-                let (o1, orest) = ob.split_at_mut(k1);
-                let (o2, o3) = orest.split_at_mut(k2 - k1);
-                assert!(m2.decrypt_blocks_b2b(i1, o1).is_ok());
-                m2.apply_keystream_blocks_inout(InOutBuf::new(i2, o2).unwrap());
-                o3.clone_from_slice(i3);
-                m2.encrypt_blocks(o3);
-            }
+            let mut s2 = [0u8; B];
+            split_on!(k1, 0, N, a_ => {
+                split_on!(k2, a_, N, b_ => {
+                    let cw = UfE::<$bs, $par>::with_key(key);
+                    let mut m2 = ofb::OfbCore::inner_iv_init(cw, blk::<$bs>(&iv));
+                    let ib = blocks::<$bs>(&input);
+                    let ob = blocks_mut::<$bs>(&mut out);
+                    let (i1, irest) = ib.split_at(a_);
+                    let (i2, i3) = irest.split_at(b_ - a_);
+                    let (o1, orest) = ob.split_at_mut(a_);
+                    let (o2, o3) = orest.split_at_mut(b_ - a_);
+                    assert!(m2.decrypt_blocks_b2b(i1, o1).is_ok());
+                    m2.apply_keystream_blocks_inout(InOutBuf::new(i2, o2).unwrap());
+                    o3.clone_from_slice(i3);
+                    m2.encrypt_blocks(o3);
+                    s2.copy_from_slice(&m2.iv_state());
+                });
+            });
             let mut i = 0;
             while i < L {
                 assert!(out[i] == r[i], "OFB output depends on batching / face / width");
                 i += 1;
             }
-            let (s1, s2) = (m1.iv_state(), m2.iv_state());
+            let s1 = m1.iv_state();
             let mut j = 0;
             while j < B {
                 assert!(s1[j] == s2[j]);
@@ -223,52 +347,60 @@ fn mk_ctr64be<C: cipher::BlockCipherEncrypt<BlockSize = U8>>(c: C, iv: &Array<u8
 fn mk_ctr128le<C: cipher::BlockCipherEncrypt<BlockSize = U16>>(c: C, iv: &Array<u8, U16>) -> ctr::CtrCore<C, ctr::flavors::Ctr128LE> { ctr::CtrCore::inner_iv_init(c, iv) }
 fn mk_belt<C: cipher::BlockCipherEncrypt<BlockSize = U16>>(c: C, iv: &Array<u8, U16>) -> belt_ctr::BeltCtrCore<C> { belt_ctr::BeltCtrCore::inner_iv_init(c, iv) }
 
-// ---- quick: n=4, w in {2,3}, b=2 ----------------------------------------------------------
-batch_case!(cbc_enc_b2_w2_n4, 48, cbc::Encryptor, enc, U2, 2, U2, 2, U2, 4, U2, 2);
-batch_case!(cbc_dec_b2_w3_n4, 48, cbc::Decryptor, dec, U2, 2, U2, 2, U3, 4, U2, 2);
-batch_case!(cbc_dec_b2_w2_n4, 48, cbc::Decryptor, dec, U2, 2, U2, 2, U2, 4, U2, 2);
-batch_case!(pcbc_enc_b2_w3_n4, 48, pcbc::Encryptor, enc, U2, 2, U2, 2, U3, 4, U2, 2);
-batch_case!(pcbc_dec_b2_w2_n4, 48, pcbc::Decryptor, dec, U2, 2, U2, 2, U2, 4, U2, 2);
-batch_case!(ige_enc_b2_w2_n4, 48, ige::Encryptor, enc, U2, 2, U4, 4, U2, 4, U2, 2);
-batch_case!(ige_dec_b2_w3_n4, 48, ige::Decryptor, dec, U2, 2, U4, 4, U3, 4, U2, 2);
-batch_case!(cfb_enc_b2_w2_n4, 48, cfb_mode::Encryptor, enc, U2, 2, U2, 2, U2, 4, U2, 2);
-batch_case!(cfb_dec_b2_w3_n4, 48, cfb_mode::Decryptor, dec, U2, 2, U2, 2, U3, 4, U2, 2);
-batch_case!(cfb_dec_b2_w2_n4, 48, cfb_mode::Decryptor, dec, U2, 2, U2, 2, U2, 4, U2, 2);
-batch_case!(cfb8_enc_b2_w2_n4, 48, cfb8::Encryptor, enc, U2, 2, U2, 2, U2, 4, U1, 1);
-batch_case!(cfb8_dec_b2_w2_n4, 48, cfb8::Decryptor, dec, U2, 2, U2, 2, U2, 4, U1, 1);
-ofb_batch_case!(ofb_b2_w2_n4, 48, U2, 2, U2, 4);
-ks_batch_case!(ctr32be_b4_w2_n4, 48, mk_ctr32be, u32, true, U4, 4, U2, 4);
-ks_batch_case!(ctr64le_b8_w3_n4, 64, mk_ctr64le, u64, true, U8, 8, U3, 4);
+// ---- quick: inductive step, K=5 (w=2: two full groups + tail; w=3: group + tail of 2; w=4: group + 1)
+batch_case!(cbc_enc_b2_w2_k5, 48, cbc::Encryptor, enc, U2, 2, U2, 2, U2, 5, U2, 2);
+batch_case!(cbc_dec_b2_w2_k5, 48, cbc::Decryptor, dec, U2, 2, U2, 2, U2, 5, U2, 2);
+batch_case!(cbc_dec_b2_w3_k5, 48, cbc::Decryptor, dec, U2, 2, U2, 2, U3, 5, U2, 2);
+batch_case!(pcbc_enc_b2_w3_k5, 48, pcbc::Encryptor, enc, U2, 2, U2, 2, U3, 5, U2, 2);
+batch_case!(pcbc_dec_b2_w2_k5, 48, pcbc::Decryptor, dec, U2, 2, U2, 2, U2, 5, U2, 2);
+batch_case!(ige_enc_b2_w2_k5, 48, ige::Encryptor, enc, U2, 2, U4, 4, U2, 5, U2, 2);
+batch_case!(ige_dec_b2_w3_k5, 48, ige::Decryptor, dec, U2, 2, U4, 4, U3, 5, U2, 2);
+batch_case!(cfb_enc_b2_w2_k5, 48, cfb_mode::Encryptor, enc, U2, 2, U2, 2, U2, 5, U2, 2);
+batch_case!(cfb_dec_b2_w2_k5, 48, cfb_mode::Decryptor, dec, U2, 2, U2, 2, U2, 5, U2, 2);
+batch_case!(cfb_dec_b2_w3_k5, 48, cfb_mode::Decryptor, dec, U2, 2, U2, 2, U3, 5, U2, 2);
+batch_case!(cfb8_enc_b2_w2_k4, 48, cfb8::Encryptor, enc, U2, 2, U2, 2, U2, 4, U1, 1);
+batch_case!(cfb8_dec_b2_w2_k4, 48, cfb8::Decryptor, dec, U2, 2, U2, 2, U2, 4, U1, 1);
+batch_case!(ofb_enc_b2_w2_k5, 48, ofb::OfbCore, enc, U2, 2, U2, 2, U2, 5, U2, 2);
+batch_case!(ofb_dec_b2_w3_k5, 48, ofb::OfbCore, dec, U2, 2, U2, 2, U3, 5, U2, 2);
+ks_batch_case!(ctr32be_b4_w2_k5, 48, mk_ctr32be, u32, U4, 4, U2, 5);
+ks_batch_case!(ctr64le_b8_w3_k5, 64, mk_ctr64le, u64, U8, 8, U3, 5);
+ks_batch_case!(ctr128be_b16_w2_k3, 80, mk_ctr128be, u128, U16, 16, U2, 3);
+ks_batch_case!(belt_b16_w2_k3, 80, mk_belt, u128, U16, 16, U2, 3);
 cts_width_case!(cts_cbc_cs3_enc_b2_w3_l9, 48, CbcCs3, enc, U2, 2, U3, 9);
 cts_width_case!(cts_cbc_cs1_dec_b2_w2_l9, 48, CbcCs1, dec, U2, 2, U2, 9);
 cts_width_case!(cts_ecb_cs2_enc_b2_w2_l9, 48, EcbCs2, enc, U2, 2, U2, 9);
 cts_width_case!(cts_ecb_cs3_dec_b2_w3_l10, 48, EcbCs3, dec, U2, 2, U3, 10);
 
-// ---- thorough: n=5 with w=2 (two full groups + tail), w=4, larger blocks ---------------------
-batch_case!(t_cbc_enc_b4_w3_n5, 64, cbc::Encryptor, enc, U4, 4, U4, 4, U3, 5, U4, 4);
-batch_case!(t_cbc_dec_b2_w2_n5, 48, cbc::Decryptor, dec, U2, 2, U2, 2, U2, 5, U2, 2);
-batch_case!(t_cbc_dec_b1_w4_n5, 48, cbc::Decryptor, dec, U1, 1, U1, 1, U4, 5, U1, 1);
-batch_case!(t_cbc_dec_b4_w3_n4, 64, cbc::Decryptor, dec, U4, 4, U4, 4, U3, 4, U4, 4);
-batch_case!(t_pcbc_enc_b2_w2_n5, 48, pcbc::Encryptor, enc, U2, 2, U2, 2, U2, 5, U2, 2);
-batch_case!(t_pcbc_dec_b2_w4_n5, 48, pcbc::Decryptor, dec, U2, 2, U2, 2, U4, 5, U2, 2);
-batch_case!(t_pcbc_dec_b3_w3_n4, 48, pcbc::Decryptor, dec, U3, 3, U3, 3, U3, 4, U3, 3);
-batch_case!(t_ige_enc_b2_w4_n5, 48, ige::Encryptor, enc, U2, 2, U4, 4, U4, 5, U2, 2);
-batch_case!(t_ige_dec_b2_w2_n5, 48, ige::Decryptor, dec, U2, 2, U4, 4, U2, 5, U2, 2);
-batch_case!(t_ige_dec_b3_w3_n4, 48, ige::Decryptor, dec, U3, 3, U6, 6, U3, 4, U3, 3);
-batch_case!(t_cfb_enc_b3_w3_n4, 48, cfb_mode::Encryptor, enc, U3, 3, U3, 3, U3, 4, U3, 3);
-batch_case!(t_cfb_dec_b2_w2_n5, 48, cfb_mode::Decryptor, dec, U2, 2, U2, 2, U2, 5, U2, 2);
-batch_case!(t_cfb_dec_b1_w4_n5, 48, cfb_mode::Decryptor, dec, U1, 1, U1, 1, U4, 5, U1, 1);
-batch_case!(t_cfb_dec_b4_w3_n4, 64, cfb_mode::Decryptor, dec, U4, 4, U4, 4, U3, 4, U4, 4);
-batch_case!(t_cfb8_enc_b3_w1_n5, 48, cfb8::Encryptor, enc, U3, 3, U3, 3, U1, 5, U1, 1);
-batch_case!(t_cfb8_dec_b3_w3_n5, 48, cfb8::Decryptor, dec, U3, 3, U3, 3, U3, 5, U1, 1);
-ofb_batch_case!(t_ofb_b3_w3_n5, 48, U3, 3, U3, 5);
-ofb_batch_case!(t_ofb_b4_w2_n4, 64, U4, 4, U2, 4);
-ks_batch_case!(t_ctr32le_b4_w3_n5, 64, mk_ctr32le, u32, true, U4, 4, U3, 5);
-ks_batch_case!(t_ctr64be_b8_w2_n5, 64, mk_ctr64be, u64, true, U8, 8, U2, 5);
-ks_batch_case!(t_ctr128be_b16_w2_n4, 80, mk_ctr128be, u128, true, U16, 16, U2, 4);
-ks_batch_case!(t_ctr128le_b16_w3_n4, 80, mk_ctr128le, u128, true, U16, 16, U3, 4);
-ks_batch_case!(t_belt_b16_w2_n4, 80, mk_belt, u128, true, U16, 16, U2, 4);
-ks_batch_case!(t_belt_b16_w3_n4, 80, mk_belt, u128, true, U16, 16, U3, 4);
+// ---- thorough: other block sizes / widths for the step; three-piece bounded confirmations -----
+batch_case!(t_cbc_enc_b4_w3_k5, 64, cbc::Encryptor, enc, U4, 4, U4, 4, U3, 5, U4, 4);
+batch_case!(t_cbc_dec_b1_w4_k6, 48, cbc::Decryptor, dec, U1, 1, U1, 1, U4, 6, U1, 1);
+batch_case!(t_cbc_dec_b4_w2_k5, 64, cbc::Decryptor, dec, U4, 4, U4, 4, U2, 5, U4, 4);
+batch_case!(t_cbc_dec_b1_w8_k9, 64, cbc::Decryptor, dec, U1, 1, U1, 1, U8, 9, U1, 1);
+batch_case!(t_pcbc_enc_b2_w2_k5, 48, pcbc::Encryptor, enc, U2, 2, U2, 2, U2, 5, U2, 2);
+batch_case!(t_pcbc_dec_b2_w4_k6, 48, pcbc::Decryptor, dec, U2, 2, U2, 2, U4, 6, U2, 2);
+batch_case!(t_pcbc_dec_b3_w3_k5, 48, pcbc::Decryptor, dec, U3, 3, U3, 3, U3, 5, U3, 3);
+batch_case!(t_ige_enc_b2_w4_k6, 48, ige::Encryptor, enc, U2, 2, U4, 4, U4, 6, U2, 2);
+batch_case!(t_ige_dec_b2_w2_k5, 48, ige::Decryptor, dec, U2, 2, U4, 4, U2, 5, U2, 2);
+batch_case!(t_ige_dec_b3_w3_k5, 48, ige::Decryptor, dec, U3, 3, U6, 6, U3, 5, U3, 3);
+batch_case!(t_cfb_enc_b3_w3_k5, 48, cfb_mode::Encryptor, enc, U3, 3, U3, 3, U3, 5, U3, 3);
+batch_case!(t_cfb_dec_b1_w4_k6, 48, cfb_mode::Decryptor, dec, U1, 1, U1, 1, U4, 6, U1, 1);
+batch_case!(t_cfb_dec_b4_w3_k5, 64, cfb_mode::Decryptor, dec, U4, 4, U4, 4, U3, 5, U4, 4);
+batch_case!(t_cfb_dec_b1_w8_k9, 64, cfb_mode::Decryptor, dec, U1, 1, U1, 1, U8, 9, U1, 1);
+batch_case!(t_cfb8_enc_b3_w1_k5, 48, cfb8::Encryptor, enc, U3, 3, U3, 3, U1, 5, U1, 1);
+batch_case!(t_cfb8_dec_b3_w3_k5, 48, cfb8::Decryptor, dec, U3, 3, U3, 3, U3, 5, U1, 1);
+batch_case!(t_ofb_enc_b3_w3_k5, 48, ofb::OfbCore, enc, U3, 3, U3, 3, U3, 5, U3, 3);
+ks_batch_case!(t_ctr32le_b4_w3_k5, 64, mk_ctr32le, u32, U4, 4, U3, 5);
+ks_batch_case!(t_ctr64be_b8_w2_k5, 64, mk_ctr64be, u64, U8, 8, U2, 5);
+ks_batch_case!(t_ctr128le_b16_w3_k4, 80, mk_ctr128le, u128, U16, 16, U3, 4);
+ks_batch_case!(t_belt_b16_w3_k4, 80, mk_belt, u128, U16, 16, U3, 4);
+batch3_case!(t_p3_cbc_dec_b2_w3_n4, 48, cbc::Decryptor, dec, U2, 2, U2, 2, U3, 4, U2, 2);
+batch3_case!(t_p3_pcbc_enc_b2_w3_n4, 48, pcbc::Encryptor, enc, U2, 2, U2, 2, U3, 4, U2, 2);
+batch3_case!(t_p3_ige_dec_b2_w2_n4, 48, ige::Decryptor, dec, U2, 2, U4, 4, U2, 4, U2, 2);
+batch3_case!(t_p3_cfb_dec_b2_w2_n4, 48, cfb_mode::Decryptor, dec, U2, 2, U2, 2, U2, 4, U2, 2);
+batch3_case!(t_p3_cfb8_enc_b2_w2_n4, 48, cfb8::Encryptor, enc, U2, 2, U2, 2, U2, 4, U1, 1);
+ofb_batch3_case!(t_p3_ofb_b2_w2_n4, 48, U2, 2, U2, 4);
+ks_batch3_case!(t_p3_ctr32be_b4_w2_n4, 48, mk_ctr32be, u32, true, U4, 4, U2, 4);
+ks_batch3_case!(t_p3_belt_b16_w2_n3, 80, mk_belt, u128, true, U16, 16, U2, 3);
 cts_width_case!(t_cts_cbc_cs1_enc_b2_w3_l9, 48, CbcCs1, enc, U2, 2, U3, 9);
 cts_width_case!(t_cts_cbc_cs2_enc_b2_w2_l8, 48, CbcCs2, enc, U2, 2, U2, 8);
 cts_width_case!(t_cts_cbc_cs2_dec_b2_w3_l9, 48, CbcCs2, dec, U2, 2, U3, 9);
